@@ -1,5 +1,5 @@
 import OdxVerif.Props.C05Nested
-import OdxVerif.Proofs.CompTrunc2Good
+import OdxVerif.Proofs.CompTrunc2Mono
 /-! # C05, nested tier, second part (task W26) — "nothing is invented" as a theorem about the WHOLE decoder model
     `Proofs/CompTrunc2.lean` instruments the model's decoder with a ghost log: every call of `extractCore` — the one place
     where `DecodeState.extract_atomic_value` takes bytes out of the message — records the byte range it requests
@@ -34,6 +34,14 @@ theorem LState.inv_nil (s : DecState) (p : Bool) : LState.Inv { st := s, log := 
   intro e he; cases he
 
 /-! ### the site level: any DOP, anywhere in a message -/
+
+/-- **The log is a faithful trace.**  No run of the instrumented decoder (returned or raised) removes or alters an entry of
+    the log: the final log is the initial one with the new requests in front. -/
+theorem C05_log_grows_site (fuel : Nat) (d : Dop) (ls : LState) (st : Bool) :
+    ∃ new, resLog (decodeDopL fuel d ls st) = new ++ ls.log := by
+  have h := (grows_decode_all fuel).1 d
+  unfold Grows at h
+  exact h ls st
 
 /-- **Erasure (site level).**  Forgetting the ghost fields of a run of the instrumented DOP decoder gives the run of the
     model's `decodeDop` — for every DOP of the model, every state, both modes. -/
@@ -207,5 +215,57 @@ theorem C05_probe_requests_are_exempt :
     ∃ ps msg v c e, decodeMessage none ps msg true = .ok (v, c) ∧ e ∈ (decodeMessageL none ps msg true).2 ∧ msg.length < e.stop := by
   obtain ⟨v, hv⟩ := returns_elim c5Probe_ok
   exact ⟨c5Probe, [0x01, 0x02, 0x03], v, 3, ⟨2, 4, true⟩, hv, by rw [c5Probe_log]; decide, by decide⟩
+
+/-! ### the constructors of `Described2` that the rules of `Reads` were not checked against (W19, "NOT proved" (3)):
+    the whole-model theorem needs no coverage argument — instances, each evaluated by the kernel -/
+
+def c5Sid : Param := .mk "sid" none none (.codedConst (.std .uint32 none true 8 none false) (.int 0x22))
+
+/-- BYTE-SIZE structure: [sid, s : STRUCTURE BYTE-SIZE 4 {a : 8, b : 16}] -/
+def c5Bs : List Param :=
+  [c5Sid, .mk "s" none none (.value (.struct (some 4) [.mk "a" none none (.value c5U8 none), .mk "b" none none (.value c5U16 none)]) none)]
+/-- `22 01 02`: member `b` requests `2…4` of a three-byte PDU -/
+theorem c5Bs_log : (decodeMessageL none c5Bs [0x22, 1, 2] true).2 = [⟨2, 4, false⟩, ⟨1, 2, false⟩, ⟨0, 1, false⟩] := by decide +kernel
+example : decodeMessage none c5Bs [0x22, 1, 2] true = .error .decode :=
+  C05_truncated_rejected_all true none c5Bs _ ⟨2, 4, false⟩ (by rw [c5Bs_log]; decide) rfl (by decide)
+/-- `22 01 02 03`: the members are there, the padding up to BYTE-SIZE (byte 4) is not: accepted, cursor 5 behind the end of the
+    four-byte PDU — the BYTE-SIZE *jump* of the open finding `static-field-padding-behind-pdu-end`; the log shows that nothing was requested there -/
+theorem c5Bs_jump : returns (decodeMessage none c5Bs [0x22, 1, 2, 3] true)
+      (.dict [("sid", .atom (.int 0x22)), ("s", .dict [("a", .atom (.int 1)), ("b", .atom (.int 0x0203))])]) 5 = true ∧
+    msgRequests none c5Bs [0x22, 1, 2, 3] true = [(2, 4), (1, 2), (0, 1)] := by decide +kernel
+
+/-- MIN-MAX leaf (A_BYTEFIELD, MIN-LENGTH 2, MAX-LENGTH 4, ZERO termination) -/
+def c5Mm : List Param :=
+  [c5Sid, .mk "m" none none (.value (.simple (.minmax .bytefield none true 2 (some 4) .zero) .bytefield .identical) none)]
+/-- `22 01`: rejected by the MIN-LENGTH check, which is not a request (no `extractCore` call; it IS a rule of `Reads`): the log and
+    `Reads` are different notions — `C05_truncated_rejected_all` is an implication, not an equivalence -/
+theorem c5Mm_short : isDecodeError (decodeMessage none c5Mm [0x22, 1] true) = true ∧
+    msgRequests none c5Mm [0x22, 1] true = [(0, 1)] := by decide +kernel
+/-- `22 01 02 03`: the body request `1…4` is computed from the message (`min(len, orig + MAX-LENGTH)`), so it cannot be short -/
+theorem c5Mm_ok : msgRequests none c5Mm [0x22, 1, 2, 3] true = [(1, 4), (0, 1)] := by decide +kernel
+
+/-- LEADING-LENGTH leaf (8-bit length prefix, A_BYTEFIELD) -/
+def c5Ld : List Param :=
+  [c5Sid, .mk "l" none none (.value (.simple (.leading .bytefield none true 8) .bytefield .identical) none)]
+/-- `22 03 aa bb`: the prefix says three bytes, two are there: request `2…5`; rejected in lenient mode as well -/
+theorem c5Ld_log : (decodeMessageL none c5Ld [0x22, 3, 0xaa, 0xbb] false).2 = [⟨2, 5, false⟩, ⟨1, 2, false⟩, ⟨0, 1, false⟩] := by
+  decide +kernel
+example : decodeMessage none c5Ld [0x22, 3, 0xaa, 0xbb] false = .error .decode :=
+  C05_truncated_rejected_all false none c5Ld _ ⟨2, 5, false⟩ (by rw [c5Ld_log]; decide) rfl (by decide)
+
+/-- MATCHING-REQUEST-PARAM (two bytes of the request) behind the response SID -/
+def c5Mr : List Param :=
+  [.mk "sid" none none (.codedConst (.std .uint32 none true 8 none false) (.int 0x62)), .mk "r" none none (.matchingReq 0 2)]
+theorem c5Mr_log : (decodeMessageL none c5Mr [0x62, 1] true).2 = [⟨1, 3, false⟩, ⟨0, 1, false⟩] := by decide +kernel
+example : decodeMessage none c5Mr [0x62, 1] true = .error .decode :=
+  C05_truncated_rejected_all true none c5Mr _ ⟨1, 3, false⟩ (by rw [c5Mr_log]; decide) rfl (by decide)
+
+/-- DYNAMIC-ENDMARKER-FIELD (termination value 0xFF, 8 bit) of `c5Item` = {a : 8, b : 16} -/
+def c5Em : List Param := [.mk "f" none none (.value (.endMarkerField (.int 0xFF) c5U8 c5Item) none)]
+/-- `01 0203 04`: the second item's `b` requests `4…6`; the two probes (`0…1`, `3…4`) are inside and found no marker -/
+theorem c5Em_log : (decodeMessageL none c5Em [1, 2, 3, 4] false).2 =
+    [⟨4, 6, false⟩, ⟨3, 4, false⟩, ⟨3, 4, true⟩, ⟨1, 3, false⟩, ⟨0, 1, false⟩, ⟨0, 1, true⟩] := by decide +kernel
+example : decodeMessage none c5Em [1, 2, 3, 4] false = .error .decode :=
+  C05_truncated_rejected_all false none c5Em _ ⟨4, 6, false⟩ (by rw [c5Em_log]; decide) rfl (by decide)
 
 end OdxVerif.Codec
